@@ -25,7 +25,7 @@ EPS = 2.0**-52
 
 
 def cases(tier, seed):
-    n = 240 if tier == "quick" else 12800
+    n = 240 if tier == "quick" else 38400
     out_ = [{"seed": seed, "idx": i} for i in range(n)]
     if tier == "thorough":
         out_.append({"seed": seed, "kind": "repo_tests", "_cost": 40})
